@@ -52,3 +52,6 @@ PROPS = {
 # parser + scheduler over an enumerated universe of small projects; labelled bounded, never counted as proved
 for _p in ("C01", "C02", "C03", "C04", "C05", "C06", "C07", "C08", "C09", "C10", "C11", "C12", "C13", "C14", "C15", "C16", "C18"):
     PROPS[_p]["bounded"] = list(PROPS[_p]["bounded"]) + [{"script": "universe.py", "args": [_p]}]
+
+for _p in ("C19", "C20"):
+    PROPS[_p]["bounded"] = list(PROPS[_p]["bounded"]) + [{"script": "cli_scan.py", "args": [_p]}]
